@@ -29,6 +29,9 @@ var worlds = []world{
 	{"192.168.1.5:1", "192.168.1.50:1", "[fe80::1]:65535", "my-" + listen.FlyGlobalServicesHost + ":1", listen.FlyGlobalServicesHost + ":1", ":0"},
 	{"255.255.255.255:443", "1.2.3.4:443", "[2001:db8:0:1::a]:443", "a.b.c.example.org:443", listen.FlyGlobalServicesHost + ":8443", ":65535"},
 	{"10.1.2.3:9000", "10.1.2.3:9001", "[::2]:9000", "1.2.3.4.5:9000", listen.FlyGlobalServicesHost + ":9000", ":9000"},
+	// an IPv4 address may also be written as an IPv4-mapped IPv6 literal: its family (the stack it can be bound on) is IPv4
+	{"127.0.0.1:4443", "[::ffff:127.0.0.1]:4443", "[::1]:4443", "example.net:4443", listen.FlyGlobalServicesHost + ":4443", ":4443"},
+	{"[::ffff:10.0.0.7]:53", "10.0.0.8:53", "[2001:db8::7]:53", "::ffff:10.0.0.7.example:53", listen.FlyGlobalServicesHost + ":53", ":5353"},
 }
 
 var spaces = []string{" ", "  ", "\t", "\n", " \t ", "\r\n"}
